@@ -137,6 +137,23 @@ def may_call(cg, f, target_qual, assume, depth=0, _seen=None) -> bool:
 
 
 # ---------------------------------------------------------------------------------------------------------------------
+def expand(g: CFG, e, at: Node, depth=0):
+    """expression with every local name replaced by its only reaching definition (depth-limited): what the expression computes, whatever
+    intermediate names the code uses"""
+    import copy as _copy
+    if depth > 4:
+        return e
+
+    class R(ast.NodeTransformer):
+        def visit_Name(self, node):
+            if isinstance(node.ctx, ast.Load):
+                ds = reaching_defs(g, node.id, at)
+                if len(ds) == 1 and isinstance(ds[0].ast, ast.Assign) and len(ds[0].ast.targets) == 1 and isinstance(ds[0].ast.targets[0], ast.Name):
+                    return expand(g, _copy.deepcopy(ds[0].ast.value), ds[0], depth + 1)
+            return node
+    return R().visit(_copy.deepcopy(e))
+
+
 def list_mutation_nodes(g: CFG, holder: str) -> List[Node]:
     """CFG nodes that change the list denoted by the expression text `holder`: editing method calls, item / slice stores and deletions,
     augmented assignment"""
